@@ -125,6 +125,7 @@ class PredictEval:
         self.env = {self.panel: ("panel",)} if self.panel else {}
         self.problems = []
         self.untyped_buffers = {}
+        self.closures = {}
         self.row_problem = None
         self.result_buffer = None
         self.result = None
@@ -215,6 +216,27 @@ class PredictEval:
                 self._kill(st)
                 continue
             if isinstance(st, (ast.Import, ast.ImportFrom, ast.Pass)):
+                continue
+            if isinstance(st, ast.FunctionDef):
+                self.closures[st.name] = st
+                continue
+            if isinstance(st, ast.While) and not st.orelse and loop is None and isinstance(st.test, ast.Compare) \
+                    and len(st.test.ops) == 1 and isinstance(st.test.ops[0], ast.Lt) and isinstance(st.test.left, ast.Name) \
+                    and self.env.get(st.test.left.id) == ("const", 0) and self.ev(st.test.comparators[0]) == NROWS \
+                    and st.body and isinstance(st.body[-1], ast.AugAssign) and isinstance(st.body[-1].target, ast.Name) \
+                    and st.body[-1].target.id == st.test.left.id and isinstance(st.body[-1].op, ast.Add) \
+                    and const(st.body[-1].value) == 1 \
+                    and all(isinstance(b, (ast.Assign, ast.Expr)) for b in st.body[:-1]) \
+                    and not any(isinstance(x, ast.Name) and x.id == st.test.left.id and isinstance(x.ctx, ast.Store)
+                                for b in st.body[:-1] for x in ast.walk(b)):
+                # i = 0 / while i < n_rows: ...; i += 1   ==   for i in range(n_rows): ...
+                idx = st.test.left.id
+                self.env[idx] = ROWIDX
+                inner = {}
+                self.block(st.body[:-1], inner)
+                for nm, vals in inner.items():
+                    self.env[nm] = ("map", vals[0]) if len(vals) == 1 else ("opaque", "several stores per row")
+                self.env[idx] = ("opaque", idx)
                 continue
             if isinstance(st, ast.If) and all(isinstance(b, ast.Assign) and len(b.targets) == 1 and isinstance(b.targets[0], ast.Name)
                                              for b in st.body + st.orelse):
@@ -334,6 +356,17 @@ class PredictEval:
 
     def ev_call(self, c):
         f = c.func
+        if isinstance(f, ast.Name) and f.id in self.closures and getattr(self, "depth", 0) < 3:
+            callee = self.closures[f.id]
+            b = astq.bind_call(callee, c)
+            if b is not None and len(astq.returns(callee)) == 1 and len(callee.body) <= 4:
+                sub = PredictEval(self.repo, self.module, self.cls, self.defcls, callee, self.lookup)
+                sub.depth = getattr(self, "depth", 0) + 1
+                sub.env = dict(self.env)  # a closure sees the enclosing locals
+                sub.env.update({p0: self.ev(a0) for p0, a0 in b.items() if isinstance(a0, ast.AST) and p0 not in ("*", "**")})
+                res = sub.run()
+                if res is not None and sub.returns == 1:
+                    return res
         ext = self.scope.ext(f)
         # own predict_proba / identity validators on the panel
         if isinstance(f, ast.Attribute) and isinstance(f.value, ast.Name) and f.value.id == "self":
@@ -1014,7 +1047,7 @@ class Checker:
         c = name + ".predict_proba:one-hot"
         scope = Scope(self.repo, k.module, fn)
         pos = astq.param_names(fn, skip_self=True)
-        augs = [n for n in astq.walk_no_nested(fn) if isinstance(n, ast.AugAssign)]
+        augs = [n for n in astq.walk_no_nested(fn) if isinstance(n, ast.AugAssign) and isinstance(n.target, ast.Subscript)]
         ret = single_return(fn)
         if not augs and ret is not None and isinstance(ret.value, ast.Name) and any(
                 isinstance(v, ast.Call) and scope.ext(v.func) in ("numpy.zeros",) for v in astq.assigned_values(fn, ret.value.id)):
@@ -1032,6 +1065,9 @@ class Checker:
             ctx.undecided("R1", c, "vote statement %s not interpretable" % astq.canon(a.target)[:60], loc)
             return None
         row, col = t.slice.elts
+        if isinstance(col, ast.Name):
+            cv = astq.assigned_values(fn, col.id)
+            col = cv[0] if len(cv) == 1 else col
         inc = const(a.value)
         ctx.check((inc == 1 and not isinstance(inc, bool)) if isinstance(inc, (int, float)) else None, "R1",
                   name + ".predict_proba:mass", "exactly one unit per instance (rows sum to 1)",
@@ -1064,6 +1100,15 @@ class Checker:
         return ("one-hot",)
 
     def is_row_loop_var(self, fn, var, panel):
+        for n in astq.walk_no_nested(fn):
+            if isinstance(n, ast.While) and isinstance(n.test, ast.Compare) and len(n.test.ops) == 1 \
+                    and isinstance(n.test.ops[0], ast.Lt) and isinstance(n.test.left, ast.Name) and n.test.left.id == var:
+                inits = [v for v in astq.assigned_values(fn, var)]
+                incs = [x for x in n.body if isinstance(x, ast.AugAssign) and isinstance(x.target, ast.Name) and x.target.id == var]
+                bound = astq.canon(astq.inline_locals(fn, n.test.comparators[0]))
+                return (len(inits) == 1 and const(inits[0]) == 0 and len(incs) == 1 and n.body[-1] is incs[0]
+                        and isinstance(incs[0].op, ast.Add) and const(incs[0].value) == 1
+                        and bound in ("%s.shape[0]" % panel, "len(%s)" % panel))
         for n in astq.walk_no_nested(fn):
             if isinstance(n, ast.For) and isinstance(n.target, ast.Name) and n.target.id == var \
                     and isinstance(n.iter, ast.Call) and isinstance(n.iter.func, ast.Name) and n.iter.func.id == "range":
@@ -1104,8 +1149,30 @@ class Checker:
                         and astq.canon(n.value.key) == astq.canon(g.target.elts[1])
                         and astq.canon(n.value.value) == astq.canon(g.target.elts[0]))
                 found.append((good, n))
+        # manual position counter:  pos = 0 / for label in self.classes_: self.class_dictionary[label] = pos; pos += 1
+        for n in astq.walk_no_nested(fn):
+            if isinstance(n, ast.For) and isinstance(n.target, ast.Name) and is_self_attr(n.iter, "classes_"):
+                for i0, st in enumerate(n.body):
+                    if isinstance(st, ast.Assign) and len(st.targets) == 1 and isinstance(st.targets[0], ast.Subscript) \
+                            and is_self_attr(st.targets[0].value, "class_dictionary") and isinstance(st.value, ast.Name):
+                        cnt = st.value.id
+                        inits = astq.assigned_values(fn, cnt)
+                        incs = [(j0, x) for j0, x in enumerate(n.body) if isinstance(x, ast.AugAssign)
+                                and isinstance(x.target, ast.Name) and x.target.id == cnt]
+                        other = [x for b0 in n.body for x in ast.walk(b0) if isinstance(x, ast.Name) and x.id == cnt
+                                 and isinstance(x.ctx, ast.Store)]
+                        good = (len(inits) == 1 and const(inits[0]) == 0 and len(incs) == 1 and len(other) == 1
+                                and isinstance(incs[0][1].op, ast.Add) and const(incs[0][1].value) == 1 and incs[0][0] > i0
+                                and astq.canon(st.targets[0].slice) == n.target.id)
+                        found.append((good if (len(inits) == 1 and len(incs) == 1) else None, st))
         if not found:
-            ctx.violation("R2", c, "fit does not build class_dictionary from enumerate(classes_)", self.loc(k, fn))
+            raw = [1 for a0, v0, st0 in astq.self_attr_stores(fn) if a0 == "class_dictionary"] + [
+                1 for x in astq.walk_no_nested(fn) if isinstance(x, ast.Subscript) and isinstance(x.ctx, ast.Store)
+                and is_self_attr(x.value, "class_dictionary")]
+            if raw:
+                ctx.undecided("R2", c, "the construction of class_dictionary in fit is not interpretable", self.loc(k, fn))
+            else:
+                ctx.violation("R2", c, "fit does not build class_dictionary from enumerate(classes_)", self.loc(k, fn))
         for good, st in found:
             ctx.check(good, "R2", c, "class_dictionary[label] = position of the label in classes_",
                       "class_dictionary is not label -> position in classes_ (%s)" % astq.canon(st)[:90] if not isinstance(
@@ -1395,7 +1462,7 @@ class Checker:
         scope = Scope(self.repo, k.module, fn)
         c = name + ".predict_proba"
         pos = astq.param_names(fn, skip_self=True)
-        augs = [n for n in astq.walk_no_nested(fn) if isinstance(n, ast.AugAssign)]
+        augs = [n for n in astq.walk_no_nested(fn) if isinstance(n, ast.AugAssign) and isinstance(n.target, ast.Subscript)]
         ret = single_return(fn)
         if not augs and ret is not None:
             ctx.violation("R2", c + ":votes", "no vote is ever added to the matrix predict_proba returns: every row is all zero", loc)
@@ -1976,13 +2043,28 @@ class Checker:
                       ", ".join("%d*j%+d" % f for f in forms), K, K - 1), loc, witness={"j": 0, "positions": [f[1] for f in forms]})
         ctx.check(affine_in(shape[axis], K), "R2", "_transform:feature-buffer", "buffer has %d positions per interval" % K,
                   "the feature axis is allocated with %s positions, not %d per interval" % (astq.canon(shape[axis]), K), loc)
-        kinds = []
-        for v in values:
+        def stat_kind(v, body, scope, depth=0):
             if isinstance(v, ast.Name):
-                vals = [a.value for a in value_body if isinstance(a, ast.Assign) and len(a.targets) == 1
+                vals = [a.value for a in body if isinstance(a, ast.Assign) and len(a.targets) == 1
                         and isinstance(a.targets[0], ast.Name) and a.targets[0].id == v.id]
-                v = vals[0] if len(vals) == 1 else v
-            kinds.append(value_scope.ext(v.func) if isinstance(v, ast.Call) else None)
+                if len(vals) == 1:
+                    return stat_kind(vals[0], body, scope, depth)
+                # a, b, c = helper(...)  with  helper returning a tuple
+                for a in body:
+                    if isinstance(a, ast.Assign) and len(a.targets) == 1 and isinstance(a.targets[0], ast.Tuple) \
+                            and isinstance(a.value, ast.Call) and isinstance(a.value.func, ast.Name) and depth < 2:
+                        names = [x.id if isinstance(x, ast.Name) else None for x in a.targets[0].elts]
+                        if v.id in names:
+                            sym = self.repo.resolve_name(mod, a.value.func.id)
+                            if sym is not None and sym.kind == "func":
+                                rets = astq.returns(sym.target)
+                                if len(rets) == 1 and isinstance(rets[0].value, ast.Tuple) and len(rets[0].value.elts) == len(names):
+                                    return stat_kind(rets[0].value.elts[names.index(v.id)], sym.target.body,
+                                                     Scope(self.repo, sym.module, sym.target), depth + 1)
+                return None
+            return scope.ext(v.func) if isinstance(v, ast.Call) else None
+
+        kinds = [stat_kind(v, value_body, value_scope) for v in values]
         want = {"numpy.mean", "numpy.std", "sktime.utils.slope_and_trend._slope"}
         ctx.check(set(kinds) == want if all(kinds) else None, "R2", "_transform:statistics", "features are mean, std and slope of the slice",
                   "the per-interval statistics are %s, not mean / std / slope" % sorted(str(k) for k in kinds), self.ctx.loc(mod, loop))
